@@ -59,6 +59,7 @@ type SessionConfig struct {
 
 type Session struct {
 	ctx       context.Context
+	cancel    context.CancelFunc
 	config    SessionConfig
 	logger    *zap.Logger
 	pools     sync.Map
@@ -67,8 +68,10 @@ type Session struct {
 }
 
 func ConnectSession(ctx context.Context, cluster *Cluster, config SessionConfig) (*Session, error) {
+	ctx, cancel := context.WithCancel(ctx)
 	session := &Session{
 		ctx:       ctx,
+		cancel:    cancel,
 		config:    config,
 		logger:    GetOrCreateNopLogger(config.Logger),
 		pools:     sync.Map{},
@@ -78,6 +81,7 @@ func ConnectSession(ctx context.Context, cluster *Cluster, config SessionConfig)
 
 	err := cluster.Listen(session)
 	if err != nil {
+		cancel()
 		return nil, err
 	}
 
@@ -85,8 +89,16 @@ func ConnectSession(ctx context.Context, cluster *Cluster, config SessionConfig)
 	case <-ctx.Done():
 		return nil, ctx.Err()
 	case <-session.connected:
+		// A failure is reported before the session is marked connected; don't let it go unnoticed when both are ready.
+		select {
+		case err = <-session.failed:
+			cancel() // Stop the pools of a session that's not going to be used
+			return nil, err
+		default:
+		}
 		return session, nil
 	case err = <-session.failed:
+		cancel() // Stop the pools of a session that's not going to be used
 		return nil, err
 	}
 }
@@ -127,8 +139,9 @@ func (s *Session) OnEvent(event Event) {
 						case s.failed <- err:
 						default:
 						}
+					} else {
+						s.pools.Store(host.Key(), pool) // Never store a nil pool, later events would dereference it
 					}
-					s.pools.Store(host.Key(), pool)
 					wg.Done()
 				}(host)
 			}
